@@ -34,6 +34,10 @@ QUICK_CANARIES = 2
 def build(pc, E, canary=None):
     pc.E = E
     pc.add_functions(E, TARGETS)
+    # what bind time counted as available (URL bindings, built-ins, resources of the bound route) must be what
+    # execute() hands to inject() at request time -- otherwise an accepted route fails with a missing argument
+    import contracts.route as R
+    R.verify_execute(pc, E)
     if canary is not None:
         return
     b = chain_text.run(pc, E)
@@ -88,3 +92,9 @@ def concretise(pc, it):
 def refute(pc, unknown_items):
     pc.native_search(unknown_items, 'c01_search.py',
                      {'budget': 4000 if pc.tier == 'quick' else 40000, 'seed': pc.seed}, 'c01_case.py')
+
+
+def fallback(pc):
+    from props.C02 import GENERAL_CASE
+    return [{'script': 'c01_case.py', 'case': GENERAL_CASE},
+            {'script': 'c01_search.py', 'case': {'budget': 3000, 'seed': pc.seed}, 'replay_script': 'c01_case.py'}]
